@@ -325,10 +325,22 @@ func runConn(c *fw.Ctx, idx int, r *fw.Rand) {
 		k.fail("C06:smtp-dialogue", "no single 220 greeting", nil)
 		return
 	}
-	rep, err := k.cmd("EHLO client.test")
-	if err != nil || rep.Code != 250 {
-		k.fail("C06:smtp-dialogue", fmt.Sprintf("EHLO answered %v %v", rep, err), nil)
-		return
+	// The limit holds however the session was opened: one connection in three greets with the
+	// plain HELO (no extension list, no SIZE announcement; inbucket refuses a second greeting, so there is one).
+	greet := []string{"EHLO client.test"}
+	switch (idx / 10) % 6 {
+	case 2, 5:
+		greet = []string{"HELO client.test"}
+		c.Count("connections_greeting_helo", 1)
+	}
+	var rep sut.Reply
+	for _, g := range greet {
+		var err error
+		rep, err = k.cmd(g)
+		if err != nil || rep.Code != 250 {
+			k.fail("C06:smtp-dialogue", fmt.Sprintf("%s answered %v %v", g, rep, err), nil)
+			return
+		}
 	}
 	// The advertised SIZE must be the configured limit (observed, informational).
 	for _, l := range rep.Lines {
